@@ -256,6 +256,8 @@ func (cs *contentStore) safeSave(auth, key string, content []byte, tags ...stora
 
 	_, err = store.Get(key)
 	if errors.Is(err, storage.ErrDataNotFound) {
+		verifYield()
+
 		return store.Put(key, content, tags...)
 	} else if err != nil {
 		return err
